@@ -26,7 +26,8 @@ import (
 	"time"
 )
 
-const verifDir = "/verif"
+// verifDir is the directory that holds bin/, sim/, evidence/ ... (parent of the directory of this executable).
+var verifDir = "/verif"
 
 type phase struct {
 	engine   string
@@ -239,6 +240,13 @@ func main() {
 	flag.Parse()
 	keepScratch = *keep
 	start := time.Now()
+	if exe, err := os.Executable(); err == nil {
+		if d := filepath.Dir(filepath.Dir(exe)); d != "" {
+			if _, err := os.Stat(filepath.Join(d, "sim", "harness")); err == nil {
+				verifDir = d
+			}
+		}
+	}
 
 	seed := uint64(1)
 	if s := os.Getenv("VERIF_SEED"); s != "" {
